@@ -1,4 +1,5 @@
-"""C20 — ARL packed-bit: pack2d/unpack error bound, exact first element, no wrap, checksum."""
+"""C20 — ARL packed-bit: pack2d/unpack error bound, exact first element, no wrap, checksum;
+file layer: reference-encoded ARL files read by arlpackedbit, writearlpackedbit output decoded by the reference decoder."""
 from fractions import Fraction
 from harness import common as C
 
@@ -19,6 +20,9 @@ ASSUMPTIONS = ['the Z model equals the binary32 computation only where every int
 def gen(rng, n, tier):
     out = []
     for i in range(n):
+        if rng.random() < FILE_FRACTION[tier if tier in FILE_FRACTION else 'quick']:
+            out.append(gen_file(rng, tier))
+            continue
         r = rng.random()
         ny = rng.randint(1, 4)
         nx = rng.randint(2, 7)
@@ -99,6 +103,10 @@ def _field(case):
 
 
 def impl(case):
+    if case['kind'].startswith('file-'):
+        return impl_file(case)
+    if case['kind'].startswith('write'):
+        return impl_write(case)
     import numpy as np
     from PseudoNetCDF.noaafiles._arl import pack2d, unpack
     x = _field(case)
@@ -135,15 +143,21 @@ def _exact_view(case, obs):
 
 
 def coq_term(case, obs):
+    if case['kind'].startswith('file-'):
+        return coq_term_file(case, obs)
+    if case['kind'].startswith('write'):
+        return coq_term_write(case, obs)
     ev = _exact_view(case, obs)
     if ev is None:
         return None
     h, rows, nrel, unp = ev
-    return '(Case %s %s %s %s %s %s)' % (C.zc(h), C.zll(rows), C.zc(nrel), C.zll(obs['bytes']), C.zll(unp), C.zc(obs['ksum']))
+    return '(Case (FieldC %s %s %s %s %s %s))' % (C.zc(h), C.zll(rows), C.zc(nrel), C.zll(obs['bytes']), C.zll(unp), C.zc(obs['ksum']))
 
 
 def py_check(case, obs):
     """exact-rational oracle for the statement, independent of the Coq model"""
+    if case['kind'].startswith(('file-', 'write')):
+        return py_check_file(case, obs)
     if 'raises' in obs:
         return dict(s_ok=False, why='in-domain pack/unpack raised %s' % obs.get('raises'))
     if 'rows_hex' in case:
@@ -170,12 +184,18 @@ def py_check(case, obs):
 
 
 def nontrivial(case, obs):
+    if case['kind'].startswith(('file-', 'write')):
+        return True
     if 'raises' in obs:
         return False
     return any(b != 127 for r in obs['bytes'] for b in r)
 
 
 def shrink(case):
+    if case['kind'].startswith(('file-', 'write')):
+        for c in shrink_file(case):
+            yield c
+        return
     if 'rows' not in case:
         return
     rows = case['rows']
@@ -197,3 +217,382 @@ LEVEL_NOTE = ('Trusted: Coq kernel + vm_compute; the correspondence harness; num
               '(verified per case); logf only through the exponent check. The arbitrary-float stream is decided by a rational oracle in Python, '
               'not by the model. ARL file layout (index record, LENH) not yet modelled.')
 TECHNIQUE = 'Coq proof (induction over the scan, lia/nia) + vm_compute refutation witnesses + differential correspondence'
+
+
+# =============================================================================== file layer
+# ARL packed data (HYSPLIT user guide sect. 4): every record = 50-byte ASCII label + nx*ny bytes.
+# Per period: INDX record = label + 108-byte fixed header + level/variable table + padding,
+# then one record per level per variable.  The reference encoder below is written from that
+# description; coq/Model/ArlFile.v `enc` is the same thing in Gallina and is compared per case.
+FILE_FRACTION = {'quick': 0.02, 'thorough': 0.01, 'search': 0.05}
+FILE_UE = -7            # unit of the integer view of file cases: 2^-7 (NEXP >= 1, so h = 2^(NEXP-1) >= 1)
+SFC_KEYS = ['PRSS', 'T02M', 'U10M', 'V10M', 'SHGT', 'TPP1', 'P   ', 'MSLP']
+LAY_KEYS = ['TEMP', 'UWND', 'VWND', 'WWND', 'HGTS', 'RELH', 'Q1  ', 'SPHU']
+SFC_TEXTS = ['   0.0', '    0.', '1.0000', '   1.0', '0.0000']
+LAY_TEXTS = ['1000.0', ' 925.0', ' 850.0', ' 700.5', '  500.', '0.9980', '.99500', '0.9000', ' .8500', '  20.0', '  10.5']
+FILE_KINDS = ['file-ok'] * 9 + ['file-nulpad'] * 2 + ['file-ragged'] * 3 + ['file-shortpad'] * 2 + ['file-narrow'] + ['file-dupkey'] + ['write'] * 2
+
+
+def _lenh(levels):
+    return 108 + sum(8 + 8 * len(l['keys']) for l in levels)
+
+
+def gen_file(rng, tier):
+    import datetime
+    kind = rng.choice(FILE_KINDS)
+    nt = rng.randint(1, 3)
+    nlay = rng.choice([0, 1, 1, 2, 2, 3])
+    if kind in ('file-ragged', 'file-dupkey', 'write'):
+        nlay = max(nlay, 2 if kind == 'file-ragged' else 1)
+    sfct = rng.choice(SFC_TEXTS)
+    used = {float(sfct)}
+    levels = [dict(text=sfct, keys=rng.sample(SFC_KEYS, rng.randint(1, 3)))]
+    laykeys = rng.sample(LAY_KEYS, rng.randint(1, 3))
+    for _ in range(nlay):
+        while True:
+            t = rng.choice(LAY_TEXTS)
+            if float(t) not in used:
+                used.add(float(t))
+                break
+        ks = list(laykeys)
+        if kind == 'file-ragged':
+            ks = rng.sample(LAY_KEYS, rng.randint(1, 3))
+        levels.append(dict(text=t, keys=ks))
+    if kind == 'file-dupkey':
+        levels[0]['keys'][rng.randrange(len(levels[0]['keys']))] = levels[1]['keys'][0]
+        if len(set(levels[0]['keys'])) != len(levels[0]['keys']):
+            levels[0]['keys'] = [levels[1]['keys'][0]]
+    lenh = _lenh(levels)
+    if kind == 'file-narrow':
+        nx, ny = 2, (lenh + 108 + 1) // 2 + rng.randint(0, 2)
+        if rng.random() < 0.4:
+            nx, ny = ny, nx
+    elif kind == 'file-shortpad':
+        nx = rng.randint(3, 6)
+        target = rng.randint(lenh + 8, lenh + 107)
+        ny = max(3, target // nx)
+        while nx * ny < lenh + 8:
+            ny += 1
+        if nx * ny >= lenh + 108:      # cannot happen for nx <= 6, kept as a guard
+            ny -= 1
+    else:
+        nx = rng.randint(3, 6)
+        ny = -(-(lenh + 108) // nx) + rng.choice([0, 0, 1, 3])
+    d0 = datetime.datetime(rng.choice([1995, 1999, 2000, 2017, 2068, 1969]), rng.randint(1, 12), rng.randint(1, 28), rng.choice([0, 3, 6, 12, 18, 21, 23]))
+    step = rng.choice([1, 3, 6, 12, 24, 30])
+    ff = rng.choice([0, 0, 3, 12])
+    times = []
+    for i in range(nt):
+        d = d0 + datetime.timedelta(hours=step * i)
+        times.append([d.year % 100, d.month, d.day, d.hour, ff])
+    D = rng.choice([1, 3, 50, 1000])
+    fields = []
+    for t in range(nt):
+        ft = []
+        for l in levels:
+            fl = []
+            for k in l['keys']:
+                style = rng.choice(['walk', 'walk', 'walk', 'const', 'spiky'])
+                v0 = rng.randint(-20000, 20000)
+                rows = []
+                for j in range(ny):
+                    cur = (rows[-1][0] if rows else v0) + (rng.randint(-D, D) if style != 'const' else 0)
+                    row = [cur]
+                    for i in range(nx - 1):
+                        if style == 'walk':
+                            cur += rng.randint(-D, D)
+                        elif style == 'spiky':
+                            cur += rng.choice([0, 0, D, -D])
+                        row.append(cur)
+                    rows.append(row)
+                fl.append(rows)
+            ft.append(fl)
+        fields.append(ft)
+    fixed = 'TEST' + '%3d' % rng.choice([0, 6]) + '%2d' % 0 + ''.join('%7.2f' % v for v in [
+        90, 0, rng.choice([1.0, 0.5, 0.25]), rng.choice([1.0, 0.5, 2.5]), 0, 0, 0, 1, 1, rng.choice([-90.0, 20.5, 40.0]), rng.choice([0.0, -125.25, 100.0]), 0])
+    return dict(kind=kind, nx=nx, ny=ny, pad=0 if kind == 'file-nulpad' else 32, grid=rng.choice(['99', ' 1', '12']),
+                vsys2='%2d' % rng.randint(1, 4), fixed=fixed, times=times, levels=levels, fields=fields)
+
+
+def _trunc_div(n, d):
+    q = abs(n) // d
+    return q if n >= 0 else -q
+
+
+def ref_pack(rows):
+    """pack one field of ints (true values); exact integer arithmetic in unit 2^FILE_UE.
+    -> (bytes row-major, NEXP, VAR1 int, KSUM).  Written from the ARL description (PAKOUT):
+    NEXP = floor(log2 RMAX) + 1 (1 when RMAX = 0), code = INT(diff * 2^(7-NEXP) + 127.5)."""
+    s = -FILE_UE
+    x = [[v << s for v in r] for r in rows]
+    ds = [abs(r[i + 1] - r[i]) for r in x for i in range(len(r) - 1)] + [abs(x[j + 1][0] - x[j][0]) for j in range(len(x) - 1)]
+    rmax = max(ds) if ds else 0
+    nexp = 1 if rmax == 0 else rmax.bit_length() + FILE_UE
+    h = 1 << (nexp - 8 - FILE_UE)
+    out = [[0] * len(r) for r in x]
+    rold = x[0][0]
+    col = []
+    for j in range(len(x)):
+        c = _trunc_div(x[j][0] - rold + 255 * h, 2 * h)
+        out[j][0] = c % 256
+        rold = (c - 127) * 2 * h + rold
+        col.append(rold)
+    for j in range(len(x)):
+        rold = col[j]
+        for i in range(1, len(x[j])):
+            c = _trunc_div(x[j][i] - rold + 255 * h, 2 * h)
+            out[j][i] = c % 256
+            rold = (c - 127) * 2 * h + rold
+    flat = [b for r in out for b in r]
+    return flat, nexp, rows[0][0], sum(flat) % 255
+
+
+def ref_content(case):
+    """the structured content (what coq/Model/ArlFile.v calls list period_t), as nested dicts"""
+    nx, ny = case['nx'], case['ny']
+    lenh = _lenh(case['levels'])
+    periods = []
+    for t, tm in enumerate(case['times']):
+        lv = []
+        for li, l in enumerate(case['levels']):
+            vs = []
+            for vi, k in enumerate(l['keys']):
+                data, nexp, var1, ksum = ref_pack(case['fields'][t][li][vi])
+                vs.append(dict(key=k, ck=ksum, exp=nexp, prec='%14.7E' % (2.0 ** nexp / 254.0), var1='%14.7E' % float(var1), data=data, v1=var1))
+            lv.append(dict(text=l['text'], vars=vs))
+        periods.append(dict(time=''.join('%2d' % v for v in tm), grid=case['grid'], fixed=case['fixed'], nx=nx, ny=ny,
+                            vsys2=case['vsys2'], pad=[case['pad']] * max(0, nx * ny - lenh), levels=lv))
+    return periods
+
+
+def ref_encode(periods):
+    """reference encoder: content -> bytes"""
+    out = bytearray()
+    for p in periods:
+        nz = len(p['levels'])
+        table = ''
+        for l in p['levels']:
+            table += l['text'] + '%2d' % len(l['vars'])
+            for v in l['vars']:
+                table += v['key'] + '%3d' % v['ck'] + ' '
+        lenh = 108 + len(table)
+        zero = '%14.7E' % 0.0
+        idx = p['time'] + '%2d' % 0 + p['grid'] + 'INDX' + '%4d' % 0 + zero + zero
+        assert len(idx) == 50
+        idx += p['fixed'] + '%3d%3d%3d' % (p['nx'], p['ny'], nz) + p['vsys2'] + '%4d' % lenh
+        assert len(idx) == 158, len(idx)
+        out += idx.encode('ascii') + table.encode('ascii') + bytes(p['pad'])
+        for li, l in enumerate(p['levels']):
+            for v in l['vars']:
+                lab = p['time'] + '%2d' % li + p['grid'] + v['key'] + '%4d' % v['exp'] + v['prec'] + v['var1']
+                assert len(lab) == 50, lab
+                out += lab.encode('ascii') + bytes(v['data'])
+    return bytes(out)
+
+
+def _to_unit(a):
+    """float array -> nested ints in unit 2^FILE_UE, or None when not exact"""
+    import numpy as np
+    s = np.ldexp(np.asarray(a, dtype='d'), -FILE_UE)
+    if not np.all(np.isfinite(s)) or not np.all(s == np.round(s)):
+        return None
+    return np.round(s).astype('int64').tolist()
+
+
+def _lvl_text(val, case):
+    for l in case['levels']:
+        import numpy as np
+        if float(np.float32(float(l['text']))) == float(np.float32(val)):
+            return l['text']
+    return 'x%r' % (float(val),)
+
+
+def impl_file(case):
+    import os, shutil, tempfile, datetime, re
+    import numpy as np
+    from PseudoNetCDF.noaafiles._arl import arlpackedbit
+    d = tempfile.mkdtemp(dir=os.path.join(C.VERIF, '.work'))
+    try:
+        path = os.path.join(d, 'f.arl')
+        data = ref_encode(ref_content(case))
+        with open(path, 'wb') as fh:
+            fh.write(data)
+        with np.errstate(all='ignore'):
+            f = arlpackedbit(path)
+            keys = list(f.variables.keys())
+            keys = keys[:keys.index('x')] if 'x' in keys else keys
+            vs = []
+            for k in keys:
+                a = np.asarray(f.variables[k])
+                sfc = (a.ndim == 3)
+                if sfc:
+                    a = a[:, None]
+                u = _to_unit(a)
+                vs.append(dict(key=k, sfc=sfc, dtype=str(a.dtype), shape=list(a.shape), vals=u if u is not None else 'inexact'))
+            tv = f.variables['time']
+            m = re.match(r'hours since (\d+)-(\d+)-(\d+) (\d+):(\d+):(\d+)', tv.units)
+            t0 = datetime.datetime(*[int(g) for g in m.groups()])
+            times = []
+            for hh in np.asarray(tv[:]).tolist():
+                t = t0 + datetime.timedelta(hours=int(hh))
+                times.append([t.year % 100, t.month, t.day, t.hour])
+            obs = dict(nz1=len(f.dimensions['z']), nx=len(f.dimensions['x']), ny=len(f.dimensions['y']),
+                       sfclvl=_lvl_text(float(f.SFCVGLVL), case), zlvls=[_lvl_text(float(z), case) for z in np.asarray(f.variables['z'][:]).tolist()],
+                       times=times, vars=vs)
+            del f
+        return obs
+    finally:
+        shutil.rmtree(d, ignore_errors=True)
+
+
+def impl_write(case):
+    import os, shutil, tempfile, datetime
+    import numpy as np
+    from PseudoNetCDF import PseudoNetCDFFile
+    from PseudoNetCDF.noaafiles._arl import writearlpackedbit, thdtype
+    d = tempfile.mkdtemp(dir=os.path.join(C.VERIF, '.work'))
+    try:
+        path = os.path.join(d, 'w.arl')
+        nt, nx, ny = len(case['times']), case['nx'], case['ny']
+        nz = len(case['levels']) - 1
+        f = PseudoNetCDFFile()
+        f.createDimension('time', nt); f.createDimension('z', nz); f.createDimension('y', ny); f.createDimension('x', nx)
+        hdr = ref_encode(ref_content(case))[:158]
+        rec = np.frombuffer(hdr, dtype=thdtype)[0]
+        for k in thdtype.names:
+            setattr(f, k, rec[k])
+        f.SFCVGLVL = float(case['levels'][0]['text'])
+        for vi, k in enumerate(case['levels'][0]['keys']):
+            v = f.createVariable(k, 'f', ('time', 'y', 'x'))
+            v[:] = np.array([case['fields'][t][0][vi] for t in range(nt)], dtype='f')
+            v.grid = case['grid'].encode(); v.VKEY = k.encode()
+        for vi, k in enumerate(case['levels'][1]['keys'] if nz else []):
+            v = f.createVariable(k, 'f', ('time', 'z', 'y', 'x'))
+            v[:] = np.array([[case['fields'][t][l + 1][vi] for l in range(nz)] for t in range(nt)], dtype='f')
+            v.grid = case['grid'].encode(); v.VKEY = k.encode()
+        z = f.createVariable('z', 'f', ('z',))
+        z[:] = [float(l['text']) for l in case['levels'][1:]]
+        tm = case['times']
+        cent = lambda yy: 1900 + yy if yy >= 69 else 2000 + yy
+        t0 = datetime.datetime(cent(tm[0][0]), tm[0][1], tm[0][2], tm[0][3])
+        tv = f.createVariable('time', 'i', ('time',))
+        tv.units = t0.strftime('hours since %Y-%m-%d %H:%M:%S')
+        tv[:] = [int((datetime.datetime(cent(a[0]), a[1], a[2], a[3]) - t0).total_seconds() // 3600) for a in tm]
+        with np.errstate(all='ignore'):
+            writearlpackedbit(f, path)
+        with open(path, 'rb') as fh:
+            data = fh.read()
+        return dict(bytes=list(data))
+    finally:
+        shutil.rmtree(d, ignore_errors=True)
+
+
+def _bs(s):
+    return C.zlist(list(s.encode('latin1')) if isinstance(s, str) else list(s))
+
+
+def _coq_periods(periods):
+    ps = []
+    for p in periods:
+        lv = []
+        for l in p['levels']:
+            vs = ['(Var %s %s %s %s %s %s)' % (_bs(v['key']), C.zc(v['ck']), C.zc(v['exp']), _bs(v['prec']), _bs(v['var1']), C.zlist(v['data']))
+                  for v in l['vars']]
+            lv.append('(Lvl %s [%s])' % (_bs(l['text']), '; '.join(vs)))
+        ps.append('(Period %s %s %s %s %s %s %s [%s])' % (_bs(p['time']), _bs(p['grid']), _bs(p['fixed']), C.zc(p['nx']), C.zc(p['ny']),
+                                                       _bs(p['vsys2']), C.zlist(p['pad']), '; '.join(lv)))
+    return '[' + '; '.join(ps) + ']'
+
+
+def _unit_rows(case):
+    s = -FILE_UE
+    return '[' + '; '.join('[' + '; '.join('[' + '; '.join(C.zll([[v << s for v in r] for r in rows]) for rows in fl) + ']' for fl in ft) + ']'
+                           for ft in case['fields']) + ']'
+
+
+def _v1tab(periods):
+    tab = {}
+    for p in periods:
+        for l in p['levels']:
+            for v in l['vars']:
+                assert float(v['var1']) == float(v['v1'])
+                tab[v['var1']] = v['v1'] << (-FILE_UE)
+    return '[' + '; '.join('(%s, %s)' % (_bs(k), C.zc(z)) for k, z in sorted(tab.items())) + ']'
+
+
+def coq_term_file(case, obs):
+    periods = ref_content(case)
+    data = ref_encode(periods)
+    if 'raises' in obs:
+        o = 'None'
+    else:
+        if any(v['vals'] == 'inexact' for v in obs['vars']):
+            return None
+        evs = []
+        for v in obs['vars']:
+            vals = '[' + '; '.join('[' + '; '.join('Some ' + C.zll(lv) for lv in tv) + ']' for tv in v['vals']) + ']'
+            evs.append('(%s, %s, %s)' % (_bs(v['key']), C.cbool(v['sfc']), vals))
+        o = '(Some (EView %s %s %s %s [%s] %s [%s]))' % (C.zc(obs['nz1']), C.zc(obs['nx']), C.zc(obs['ny']), _bs(obs['sfclvl']),
+                                                      '; '.join(_bs(z) for z in obs['zlvls']), C.zll(obs['times']), '; '.join(evs))
+    return '(RCase (FileC %s %s %s %s %s %s))' % (_coq_periods(periods), C.zlist(list(data)), C.zc(FILE_UE), _v1tab(periods), _unit_rows(case), o)
+
+
+def coq_term_write(case, obs):
+    periods = ref_content(case)
+    o = 'None' if 'raises' in obs else '(Some %s)' % C.zlist(obs['bytes'])
+    return '(WCase (WriteC %s %s %s %s [%s] [%s] %s %s %s))' % (
+        C.zc(case['nx']), C.zc(case['ny']), C.zc(FILE_UE), C.zll([t[:4] for t in case['times']]),
+        '; '.join(_bs(l['text']) for l in case['levels']),
+        '; '.join('[' + '; '.join(_bs(k) for k in l['keys']) + ']' for l in case['levels']),
+        _v1tab(periods), _unit_rows(case), o)
+
+
+def file_region(case):
+    if case['kind'].startswith('write'):
+        return 4
+    lenh = _lenh(case['levels'])
+    if lenh + 108 > case['nx'] * case['ny']:
+        return 3
+    if case['nx'] < 3 or case['ny'] < 3:
+        return 5
+    if set(case['levels'][0]['keys']) & set(k for l in case['levels'][1:] for k in l['keys']):
+        return 6
+    return 0
+
+
+def py_check_file(case, obs):
+    """region of the case (mirror of Corr.C20.region_file) and exact-representability of what was read;
+    the S and F verdicts of file cases come from Coq"""
+    region = file_region(case)
+    if 'raises' in obs:
+        return dict(s_ok=False, region=region, why='in-domain %s raised %s: %s' % ('writearlpackedbit' if region == 4 else 'arlpackedbit',
+                                                                                 obs.get('raises'), str(obs.get('msg'))[:120]))
+    if case['kind'].startswith('write'):
+        return dict(s_ok=True, region=region)
+    bad = [v['key'] for v in obs['vars'] if v['vals'] == 'inexact']
+    if bad:
+        return dict(s_ok=False, f_ok=False, region=region, why='values read for %s are not multiples of 2^%d' % (bad, FILE_UE))
+    return dict(s_ok=True, region=region)
+
+
+def shrink_file(case):
+    nt = len(case['times'])
+    if nt > 1:
+        for t in range(nt):
+            yield dict(case, times=case['times'][:t] + case['times'][t + 1:], fields=case['fields'][:t] + case['fields'][t + 1:])
+    nl = len(case['levels'])
+    if nl > 2:
+        for l in range(1, nl):
+            yield dict(case, levels=case['levels'][:l] + case['levels'][l + 1:], fields=[ft[:l] + ft[l + 1:] for ft in case['fields']])
+    for l in range(nl):
+        ks = case['levels'][l]['keys']
+        if len(ks) > 1 and (case['kind'] != 'write' or l == 0):
+            for v in range(len(ks)):
+                lv = [dict(x) for x in case['levels']]
+                lv[l]['keys'] = ks[:v] + ks[v + 1:]
+                yield dict(case, levels=lv, fields=[[fl if i != l else fl[:v] + fl[v + 1:] for i, fl in enumerate(ft)] for ft in case['fields']])
+
+
+def translate():
+    from harness import gen_arl
+    return gen_arl.translate()
